@@ -12,7 +12,7 @@ META = {
                    'R06.4 composite pairs the layer buffer with the layer rect and the surface with its rect and takes the innermost layer; '
                    'R06.5 pop_layer and clear restore the transform they overwrite on every path; stacks are mutated only by their push/pop '
                    '(R05.3); R05.6 empty clips are harmless for the layer buffer size.',
-    'decides': ['R06.1 layer-aware pixel access', 'R06.2 push_layer data flow', 'R06.3 pop_layer composites the popped layer once with opacity and blend', 'R06.4 destination selection consistent',
+    'decides': ['R02.3 mask rows handed to the blitters end at the rectangle', 'R06.1 layer-aware pixel access', 'R06.2 push_layer data flow', 'R06.3 pop_layer composites the popped layer once with opacity and blend', 'R06.4 destination selection consistent',
                 'R06.5 transform saved/restored', 'R05.3 stacks untouched by others', 'R05.6 empty clip harmless', 'R03.2 blitter geometry from dest_bounds', 'R03.6 opacity byte conversion'],
     'does_not_decide': ['equivalence with an isolated surface as pixel values', 'opacity arithmetic', 'nesting effects beyond destination = top of stack'],
     'assumptions': ['composite() is correct for an Image source with a constant mask (C03/C13 clauses)'],
@@ -30,4 +30,4 @@ _r14_1.__name__ = 'r14_1'
 
 def run(ctx):
     import engine
-    engine.run_rules(ctx, [dt.r06_1, dt.r06_2, dt.r06_3, dt.r06_4, dt.r06_5, dt.r05_3, dt.r05_6, dt.r03_2, dt.r03_6, dt.r02_6, dt.r02_1, dt.r02_7, _r14_1, dt.r05_8, ras.r10_1])
+    engine.run_rules(ctx, [dt.r06_1, dt.r06_2, dt.r06_3, dt.r06_4, dt.r06_5, dt.r05_3, dt.r05_6, dt.r03_2, dt.r03_6, dt.r02_6, dt.r02_1, dt.r02_7, _r14_1, dt.r05_8, ras.r10_1, dt.r02_3])
